@@ -4,6 +4,7 @@ Every observation goes through public API of Market / OrderBook / Order / Logger
 getters for quotes, depth and series, `priority_queue` for the per-order book snapshot, the Order
 objects the "agent" (this driver) keeps, and a Logger subclass counting delivered records.
 """
+import copy
 import heapq
 
 import numpy as np
@@ -36,6 +37,9 @@ SERIES_FOR_HISTORY = [
 
 class CountLogger(Logger):
     """Counts the records handed to the logger, per kind, through write / bulk_write."""
+
+    def __len__(self):        # a logger that counts as empty is still the logger
+        return 0
 
     def __init__(self):
         super().__init__()
@@ -90,7 +94,7 @@ def c19_side_condition(req, tick, accepted, is_buy):
 
 def snap_market(m, U):
     """Projection of the observable state of a Market (public getters, priority_queue, best orders).
-    Values that are not on the unit grid (only possible if an off-grid price was accepted) are logged as BADPX (-2; None is NOPX = -1): the
+    Values that are not on the unit grid (only possible if an off-grid price was accepted) are logged as BADPX (None is NOPX; both far outside the price range): the
     trace specification then reports the mismatch instead of the harness failing."""
     def u(x):
         k = U.u(x, soft=True)
@@ -107,8 +111,9 @@ def snap_market(m, U):
     vw = m.get_vwap()
     num, den = sum(m.get_executed_total_prices()), sum(m.get_executed_volumes())
     vw_ok = (math.isnan(vw) if den == 0 else vw == num / den)
+    tot = U.total(m.get_executed_total_price(), int(m.get_executed_volume()), soft=True)
     row = [u(m.get_market_price()), u(m.get_last_executed_price()), u(m.get_mid_price()),
-           int(m.get_executed_volume()), u(m.get_executed_total_price()),
+           int(m.get_executed_volume()), BADPX if tot is None else tot,
            int(m.get_n_buy_order()), int(m.get_n_sell_order())]
     return {
         "book": book,
@@ -179,8 +184,9 @@ class Broken(Exception):
 
 
 class BookSession:
-    def __init__(self, tick=1.0, den=2, exact=True, p0=20, fund0=None, market_cls=None, setup_tick=None):
-        self.U = Units(tick, den, exact)
+    def __init__(self, tick=1.0, den=2, exact=True, p0=20, fund0=None, market_cls=None, setup_tick=None, base=0.0):
+        self.U = Units(tick, den, exact, base=base)
+        self.base = base
         self.tick_size, self.den, self.exact = tick, den, exact
         self.logger = CountLogger()
         sim = Simulator(prng=random.Random(0))
@@ -206,7 +212,7 @@ class BookSession:
     # ------------------------------------------------------------------ observation
     def header(self):
         return {"den": self.den, "p0": self.p0, "fund0": self.fund0, "exact": self.exact, "tick": self.tick_size,
-                "setup_tick": self.setup_tick, "ev": self.ev, "ops": self.ops}
+                "setup_tick": self.setup_tick, "base": self.base, "ev": self.ev, "ops": self.ops}
 
     def _snap(self):
         return snap_market(self.m, self.U)
@@ -264,8 +270,11 @@ class BookSession:
             # (a side computed with numpy arrives as numpy.bool_: it is the same side)
             # (a fractional time-to-live, as ArbitrageAgent hands its orderTimeLength through: t0 + ttl + 0.5 < now exactly when
             #  t0 + ttl < now for integer clocks, so the order lives as long as with the whole number)
+            kind = MARKET_ORDER if mo else LIMIT_ORDER
+            if len(self.objs) % 11 == 4:
+                kind = copy.deepcopy(kind)      # an equal kind that is not the module's own object (copied / unpickled orders)
             o = Order(agent_id=0, market_id=1 if neg == "foreign" else 0, is_buy=(np.bool_(buy) if len(self.objs) % 5 == 1 else buy),
-                      kind=MARKET_ORDER if mo else LIMIT_ORDER, volume=vol, price=price,
+                      kind=kind, volume=vol, price=price,
                       ttl=None if ttl == 0 else (ttl + 0.5 if len(self.objs) % 7 == 3 else ttl))
             self.objs.append(o)
             obj = len(self.objs) - 1
@@ -388,7 +397,7 @@ class BookSession:
 def replay_ops(hdr, market_cls=None):
     """Re-execute the inputs of a recorded history against the current tree; returns the new history."""
     s = BookSession(tick=hdr["tick"], den=hdr["den"], exact=hdr["exact"], p0=hdr["p0"], fund0=hdr["fund0"],
-                    market_cls=market_cls, setup_tick=hdr.get("setup_tick"))
+                    market_cls=market_cls, setup_tick=hdr.get("setup_tick"), base=hdr.get("base", 0.0))
     try:
         _replay_into(s, hdr)
         s.end()
